@@ -87,3 +87,37 @@ def on_other_fs():
             os.stat(OTHER_FS).st_dev != os.stat(tempfile.gettempdir()).st_dev
     except OSError:
         return False
+
+
+class odd_environ:
+    """process environment as an operator's shell may have it: a terminal size exported
+    (COLUMNS / LINES), a dumb or absent terminal, colour switches, another locale, no home
+    directory.  None of it is input to what the tools compute."""
+
+    def __init__(self, rng, p=0.3):
+        self.vars = {}
+        if rng.random() < p:
+            pool = {"COLUMNS": ["80", "80", "40", "20", "1", "0", "200", "-1", "x"],
+                    "LINES": ["24", "1"], "TERM": ["dumb", "", "xterm-256color"],
+                    "NO_COLOR": ["1"], "LANG": ["C", "tr_TR.UTF-8"], "LC_ALL": ["C", "POSIX"],
+                    "HOME": ["/nonexistent"], "PYTHONIOENCODING": ["ascii", "utf-8"],
+                    "DEBUG": ["1"], "VERBOSE": ["1"], "WIDTH": ["40"]}
+            names = rng.sample(sorted(pool), rng.randint(1, 3))
+            if rng.random() < 0.6 and "COLUMNS" not in names:
+                names.append("COLUMNS")
+            self.vars = {n: rng.choice(pool[n]) for n in names}
+        self._saved = {}
+
+    def __enter__(self):
+        for k, v in self.vars.items():
+            self._saved[k] = os.environ.get(k)
+            os.environ[k] = v
+        return self
+
+    def __exit__(self, *a):
+        for k, v in self._saved.items():
+            if v is None:
+                os.environ.pop(k, None)
+            else:
+                os.environ[k] = v
+        return False
